@@ -52,10 +52,13 @@ structure Flags where
   /-- the same block is rejected by a node in lite (spv) mode (pinned and with the verdict honoured: accepted, because
       `Block::validate` returns true at once in spv mode, block.rs:2640) -/
   spendMissingRejectedSpv : Bool := false
+  /-- MEASURED outcome class: a fetched block whose golden-ticket payload is not 97 bytes is already rejected by the
+      VERIFICATION thread (true once `Block::generate` checks the payload length and its `Err` is not unwrapped) -/
+  gtShortRejectedAtVerify : Bool := false
   deriving Repr, DecidableEq
 
 def Flags.pinned : Flags := {}
-def Flags.fixed : Flags := ⟨true, true, true, true, true, true, true, true, true, true, true, true, true, true, false⟩
+def Flags.fixed : Flags := ⟨true, true, true, true, true, true, true, true, true, true, true, true, true, true, false, false⟩
 
 inductive Site where
   | msgBlock | ghostReqNoKey | keyListLimit | hsKeyMismatch | gtPayloadPool | gtPayloadBlock | verifyGenerate
@@ -332,6 +335,9 @@ def runV (fl : Flags) (n : Node) : Res :=
     | .dupinput =>                                             -- `block.generate().unwrap()` BEFORE the hash comparison
       if fl.fetchedGenerateChecked then ⟨bumpInvalid n i, .rejected, false⟩ else ⟨n, .panic .verifyGenerate, false⟩
     | .wronghash => ⟨bumpInvalid n i, .rejected, false⟩
+    | .gtshort =>
+      if fl.gtShortRejectedAtVerify then ⟨bumpInvalid n i, .rejected, false⟩
+      else ⟨{ n with cq := n.cq ++ [.blk i c] }, .handled, false⟩
     | _ => ⟨{ n with cq := n.cq ++ [.blk i c] }, .handled, false⟩
 
 /-- `ConsensusThread::process_event` on the oldest queued event -/
